@@ -213,4 +213,13 @@ func codecFor(proto string) byte {
 	return 'j'
 }
 
-func rtEcho(rt world.Routes, op *world.Op) string { return rt.Echo }
+// rtEcho picks one of the three registered forms of the echo handler (controller method, function, method expression).
+func rtEcho(rt world.Routes, op *world.Op) string {
+	switch {
+	case op.Idx%3 == 1 && rt.EchoFn != "":
+		return rt.EchoFn
+	case op.Idx%3 == 2 && rt.EchoMx != "":
+		return rt.EchoMx
+	}
+	return rt.Echo
+}
